@@ -409,9 +409,10 @@ Theorem filler_align : forall c maxrow child_rows t b,
 Proof. exact filler_values_fits. Qed.
 Print Assumptions filler_align.
 
-(* Overlay: the size handed to top_w in its three modes; no dimension is negative when the
+(* Overlay: the size handed to top_w in its three modes (fr w = top_w.rows((w,)): the flow
+   height is asked at the width top_w is rendered with); no dimension is negative when the
    available size and the requested size are not; margins + child = available in each axis *)
-Theorem overlay_fixed_thm : forall c maxcol maxrow pw ph fr l r t b,
+Theorem overlay_fixed_thm : forall c maxcol maxrow pw ph (fr : Z -> Z) l r t b,
   p_wt (o_pad c) = WPack ->
   overlay_padding_filler c maxcol maxrow pw ph fr = Ok (l, r, t, b) ->
   overlay_top_w_size c maxcol maxrow l r t b = [] /\
@@ -419,16 +420,16 @@ Theorem overlay_fixed_thm : forall c maxcol maxrow pw ph fr l r t b,
 Proof. exact overlay_fixed. Qed.
 Print Assumptions overlay_fixed_thm.
 
-Theorem overlay_flow_thm : forall c maxcol maxrow pw ph fr l r t b,
+Theorem overlay_flow_thm : forall c maxcol maxrow pw ph (fr : Z -> Z) l r t b,
   p_wt (o_pad c) <> WPack -> p_wt (o_pad c) <> WClip -> f_ht (o_fill c) = WPack ->
   overlay_padding_filler c maxcol maxrow pw ph fr = Ok (l, r, t, b) ->
   let W := clrp_width maxcol (p_wt (o_pad c)) (p_wa (o_pad c)) (p_minw (o_pad c)) (p_left (o_pad c)) (p_right (o_pad c)) in
   overlay_top_w_size c maxcol maxrow l r t b = [Z.min W maxcol] /\
-  0 <= l /\ 0 <= r /\ 0 <= t /\ t + fr + b = maxrow.
+  0 <= l /\ 0 <= r /\ 0 <= t /\ t + fr (maxcol - l - r) + b = maxrow.
 Proof. exact overlay_flow. Qed.
 Print Assumptions overlay_flow_thm.
 
-Theorem overlay_box_thm : forall c maxcol maxrow pw ph fr l r t b,
+Theorem overlay_box_thm : forall c maxcol maxrow pw ph (fr : Z -> Z) l r t b,
   p_wt (o_pad c) <> WPack -> p_wt (o_pad c) <> WClip -> f_ht (o_fill c) <> WPack ->
   overlay_padding_filler c maxcol maxrow pw ph fr = Ok (l, r, t, b) ->
   let W := clrp_width maxcol (p_wt (o_pad c)) (p_wa (o_pad c)) (p_minw (o_pad c)) (p_left (o_pad c)) (p_right (o_pad c)) in
@@ -479,6 +480,6 @@ Example grid_example :
 Proof. vm_compute. reflexivity. Qed.
 
 Example overlay_example :
-  overlay_padding_filler (OvCfg (PadCfg ACenter 0 WRelative 50 None 0 0) (FillCfg VMiddle 0 WGiven 3 None 0 0)) 20 10 0 0 0
+  overlay_padding_filler (OvCfg (PadCfg ACenter 0 WRelative 50 None 0 0) (FillCfg VMiddle 0 WGiven 3 None 0 0)) 20 10 0 0 (fun _ => 0)
     = Ok (5, 5, 3, 4).
 Proof. vm_compute. reflexivity. Qed.
